@@ -76,7 +76,12 @@ func init() {
 			}
 			lz := metrics.VerifLzcnt(v)
 			got := d.Send(fmt.Sprintf("fn lzcnt %d", v), 1)[0]
-			if got != fmt.Sprintf("%d %d", lz, lz) {
+			// the property itself: the assembly routine (compiled here) and the portable routine (metrics/lzcnt.go,
+			// translated into Lean on this run and evaluated by the driver) agree on every input
+			var portable, clz uint64
+			if n, _ := fmt.Sscanf(got, "%d %d", &portable, &clz); n == 2 && portable != lz {
+				viol(fmt.Sprintf("bit count of %d: the assembly routine returns %d, the portable routine %d", v, lz, portable), "lzcnt-disagree", map[string]interface{}{"value": v, "assembly": lz, "portable": portable})
+			} else if got != fmt.Sprintf("%d %d", lz, lz) {
 				bad(fmt.Sprintf("lzcnt(%d): compiled routine vs (portable model, clz model)", v), fmt.Sprintf("%d %d", lz, lz), got)
 			}
 			if got := d.Send(fmt.Sprintf("fn lzcntasm %d %d", v, r.Uint64()), 1)[0]; got != fmt.Sprint(lz) {
